@@ -91,21 +91,49 @@ end
 
 /-! ## resolve -/
 
-/-- static scopes, innermost first; the `None` sentinel of the code is the end of the list -/
-abbrev Scopes := List (List String)
+/-- one static scope: name ↦ "the define has been passed" (`False` = only announced by `predefine`) -/
+abbrev Scope := List (String × Bool)
 
+/-- static scopes, innermost first; the `None` sentinel of the code is the end of the list -/
+abbrev Scopes := List Scope
+
+def scopeHas (s : Scope) (x : String) : Bool := s.any (fun p => p.1 == x)
+
+/-- `scope.get(name)` is truthy -/
+def scopeDefined (s : Scope) (x : String) : Bool := s.lookup x == some true
+
+/-- the symbol case: the nearest scope that knows the name decides; resolved only if the name is defined there -/
 def lookupSteps : Scopes → String → Nat → Option Nat
   | [], _, _ => Option.none
-  | s :: rest, x, k => if s.contains x then some k else lookupSteps rest x (k + 1)
+  | s :: rest, x, k =>
+    if scopeHas s x then (if scopeDefined s x then some k else Option.none) else lookupSteps rest x (k + 1)
 
 def symName? : Sx → Option String
   | .sym n _ => some n
   | _ => Option.none
 
+def setDefault (s : Scope) (x : String) : Scope := if scopeHas s x then s else s ++ [(x, false)]
+
+def announceTop (sc : Scopes) (x : String) : Scopes :=
+  match sc with
+  | [] => []
+  | s :: r => setDefault s x :: r
+
 def addToTop (sc : Scopes) (x : String) : Scopes :=
   match sc with
   | [] => []
-  | s :: r => (if s.contains x then s else s ++ [x]) :: r
+  | s :: r => assocSet s x true :: r
+
+mutual
+/-- `predefine(env, body)`: announce the names of the straight-line defines (also inside `do`) -/
+def predefine (s : Scope) : List Sx → Scope
+  | [] => s
+  | e :: r => predefine (predefine1 s e) r
+def predefine1 (s : Scope) : Sx → Scope
+  | .list true (.op .DEFINE :: .sym n _ :: _) => setDefault s n
+  | .list true (.op .DO :: x :: body) => predefine s (x :: body)
+  | _ => s
+end
 
 /-- names bound by a `let` binding list: `binding[0].name` for every binding -/
 def letNames : List Sx → Option (List String)
@@ -117,6 +145,8 @@ def fnNames : Sx → Option (List String)
   | .list _ ps => ps.mapM symName?
   | .sym n _ => some [n]
   | _ => Option.none
+
+def boundScope (names : List String) : Scope := (dedup names).map (fun n => (n, true))
 
 mutual
 /-- `resolve_vars`; the scope stack is threaded because `define` / `defmacro` extend the top scope.
@@ -130,8 +160,8 @@ def resolveGo (sc : Scopes) : Sx → Option (Sx × Scopes)
         match sc with
         | [] => Option.none
         | top :: _ =>
-          if top.contains n then Option.none else
-          match resolveGo sc body with
+          if scopeDefined top n then Option.none else
+          match resolveGo (announceTop sc n) body with
           | some (body', sc') => some (.list true [.op .DEFINE, .sym n st, body'], addToTop sc' n)
           | Option.none => Option.none
       | _ => Option.none
@@ -141,7 +171,7 @@ def resolveGo (sc : Scopes) : Sx → Option (Sx × Scopes)
         match letNames bindings with
         | Option.none => Option.none
         | some names =>
-          match resolveList (dedup names :: sc) body with
+          match resolveList (predefine (boundScope names) body :: sc) body with
           | some (body', sc') => some (.list true (.op .LET :: .list bw bindings :: body'), sc'.drop 1)
           | Option.none => Option.none
       | _ => Option.none
@@ -151,7 +181,7 @@ def resolveGo (sc : Scopes) : Sx → Option (Sx × Scopes)
         match fnNames ps with
         | Option.none => Option.none
         | some names =>
-          match resolveList (dedup names :: sc) body with
+          match resolveList (predefine (boundScope names) body :: sc) body with
           | some (body', sc') => some (.list true (.op .FN :: ps :: body'), sc'.drop 1)
           | Option.none => Option.none
       | [] => Option.none
@@ -188,6 +218,7 @@ def resolveList (sc : Scopes) : List Sx → Option (List Sx × Scopes)
 end
 
 /-- `resolve(expr, start=names)` -/
-def resolve (start : List String) (e : Sx) : Option Sx := (resolveGo [start] e).map (·.1)
+def resolve (start : List String) (e : Sx) : Option Sx :=
+  (resolveGo [predefine (start.map (fun n => (n, true))) [e]] e).map (·.1)
 
 end Wal
